@@ -495,141 +495,10 @@ theorem firstMin_all_inf (l : List IntInf) (h : ∀ x ∈ l, x = IntInf.inf) : f
     subst hy
     simp [firstMin, ih (fun x hx => h x (by simp [hx])), IntInf.lt]
 
-/-- FINDING: when there are channels but no pairing at all (every message of a listed type is a note-off without a note-on),
-    the real code raises IndexError (`has_next` starts as `len(channel_pairings_list) > 0`), while the hand model returns `[]` -/
-theorem gip_error (h0 : Heap) (refs : List Nat) (types : List MType) (std : Int) (impute : Bool)
-    (hrefs : ∀ r ∈ refs, r < h0.length) (hok : ∀ m ∈ h0, m.ch ≠ pyNone)
-    (hbad : pairings types std impute (deref h0 refs) ≠ [] ∧
-      ((pairings types std impute (deref h0 refs)).map (fun c => c.2.length)).sum = 0) :
-    getInterleavedMessagePairings h0 refs (some types) std impute = .error .indexError := by
-  obtain ⟨h, cp, hgmp, hext, habs, _⟩ := gmp_spec h0 refs types std impute hrefs hok
-  have hhead := headCh_refs h cp types std impute _ habs
-  have hne : ∀ i, ∀ p ∈ rowAt cp i, p ≠ [] := by
-    intro i p hp
-    unfold rowAt at hp
-    by_cases hi : i < cp.length
-    · simp only [List.getD, List.getElem?_eq_getElem hi, Option.getD_some] at hp
-      obtain ⟨r, hr, _⟩ := hhead cp[i] (List.getElem_mem hi) p hp
-      intro e; subst e; simp at hr
-    · simp [List.getD, List.getElem?_eq_none (by omega : cp.length ≤ i)] at hp
-  unfold getInterleavedMessagePairings
-  simp only []
-  rw [hgmp]
-  try simp only [ViewTieL.ok_bind]
-  have hmax : ∀ i, i < cp.length → (do let c ← pyGet cp (i : Int); pure ((c.2.length : Nat) : Int) : Except PyErr Int)
-      = .ok (((rowAt cp i).length : Nat) : Int) := by
-    intro i hi; rw [pyGet_getD cp i (0, []) hi]; rfl
-  have hids : ∀ i, i < cp.length → (do let c ← pyGet cp (i : Int); pure c.1 : Except PyErr Int) = .ok (idAt cp i) := by
-    intro i hi; rw [pyGet_getD cp i (0, []) hi]; rfl
-  rw [mapM_pyRange _ _ cp.length hmax]
-  try simp only [ViewTieL.ok_bind]
-  have hcur0 : List.map (fun _ => (0 : Int)) (pyRange 0 (cp.length : Int)) = (List.range cp.length).map (fun i => (((fun _ => 0) i : Nat) : Int)) := by
-    simp [pyRange_zero]
-  rw [hcur0]
-  have hnxt : ∀ (c : Nat → Nat) i, i < cp.length →
-      (do let a ← pyGet ((List.range cp.length).map (fun i => ((c i : Nat) : Int))) (i : Int)
-          let b ← pyGet ((List.range cp.length).map (fun i => (((rowAt cp i).length : Nat) : Int))) (i : Int)
-          if decide (a < b) = true then do
-              let x ← pyGet cp (i : Int)
-              let y ← pyGet ((List.range cp.length).map (fun i => ((c i : Nat) : Int))) (i : Int)
-              let p ← pyGet x.2 y
-              let r ← pyGet p 0
-              pure (IntInf.fin (hGet h r).time)
-            else pure IntInf.inf : Except PyErr IntInf) = .ok (headT h (rowAt cp i) (c i)) := by
-    intro c i hi
-    rw [pyGet_range_map _ _ _ hi, pyGet_range_map _ _ _ hi]
-    simp only [ViewTieL.ok_bind, headT]
-    by_cases hc : c i < (rowAt cp i).length
-    · have hd : decide (((c i : Nat) : Int) < (((rowAt cp i).length : Nat) : Int)) = true := by simpa using hc
-      simp only [hd, if_true, hc, pyGet_getD cp i (0, []) hi, ViewTieL.ok_bind]
-      have : (cp.getD i (0, [])).2 = rowAt cp i := rfl
-      rw [this, pyGet_getD _ _ [] hc]
-      try simp only [ViewTieL.ok_bind]
-      have hgd : (rowAt cp i).getD (c i) [] = (rowAt cp i)[c i] := by simp [List.getD, hc]
-      have hp := hne i ((rowAt cp i).getD (c i) []) (by rw [hgd]; exact List.getElem_mem hc)
-      cases hq : (rowAt cp i).getD (c i) [] with
-      | nil => exact absurd hq hp
-      | cons r rs => rfl
-    · have hd : decide (((c i : Nat) : Int) < (((rowAt cp i).length : Nat) : Int)) = false := by simpa using hc
-      simp only [hd, Bool.false_eq_true, if_false, hc]
-      rfl
-  rw [mapM_pyRange _ _ cp.length (hnxt (fun _ => 0))]
-  rw [mapM_pyRange _ _ cp.length hids]
-  try simp only [ViewTieL.ok_bind]
-  have hfuel : (pySum ((List.range cp.length).map (fun i => (((rowAt cp i).length : Nat) : Int))) + 1).toNat
-      = ((List.range cp.length).map (fun i => (rowAt cp i).length)).sum + 1 := by
-    rw [pySum_cast]; omega
-  rw [hfuel]
-  have htot : ((List.range cp.length).map (fun i => (rowAt cp i).length)).sum = (cp.map (fun c => c.2.length)).sum := by
-    congr 1
-    apply List.ext_getElem
-    · simp
-    · intro i h1 h2
-      simp only [List.getElem_map, List.getElem_range, rowAt, List.getD]
-      simp only [List.length_map, List.length_range] at h1
-      simp [List.getElem?_eq_getElem h1]
-  have hsum0 : ((List.range cp.length).map (fun i => (rowAt cp i).length)).sum = 0 := by
-    rw [htot]
-    have h2 := hbad.2
-    rw [← habs] at h2
-    have e : (absP h cp).map (fun c => c.2.length) = cp.map (fun c => c.2.length) := by
-      simp only [absP, List.map_map]
-      apply List.map_congr_left
-      intro c _
-      simp
-    rw [← e]; exact h2
-  have hlen0 : ∀ i, i < cp.length → (rowAt cp i).length = 0 := by
-    intro i hi
-    have := sum_sub_zero (fun i => (rowAt cp i).length) (fun _ => 0) cp.length (by simpa using hsum0) i hi
-    simpa using this
-  have hpos : 0 < cp.length := by
-    have h1 := hbad.1
-    rw [← habs] at h1
-    cases hcp : cp with
-    | nil => rw [hcp] at h1; simp [absP] at h1
-    | cons x xs => simp
-  rw [hsum0]
-  have hnx : (List.range cp.length).map (fun i => headT h (rowAt cp i) ((fun _ => 0) i)) = (List.range cp.length).map (fun _ => IntInf.inf) := by
-    apply List.map_congr_left
-    intro i hi
-    simp [headT, hlen0 i (by simpa using hi)]
-  have hd : decide (((cp.length : Nat) : Int) > 0) = true := by simp; omega
-  simp only [List.replicate_succ, List.replicate_zero, List.forIn_cons, hd, Bool.not_true, Bool.false_eq_true, if_false,
-    List.length_map, List.length_range]
-  have htvt : ∀ i, i < cp.length →
-      (do let a ← pyGet ((List.range cp.length).map (fun i => (((fun _ => 0) i : Nat) : Int))) (i : Int)
-          let b ← pyGet ((List.range cp.length).map (fun i => (((rowAt cp i).length : Nat) : Int))) (i : Int)
-          if decide (a < b) = true then pyGet ((List.range cp.length).map (fun i => headT h (rowAt cp i) ((fun _ => 0) i))) (i : Int) else pure IntInf.inf : Except PyErr IntInf)
-        = .ok ((fun _ => IntInf.inf) i) := by
-    intro i hi
-    rw [pyGet_range_map _ _ _ hi, pyGet_range_map _ _ _ hi]
-    simp only [ViewTieL.ok_bind, hlen0 i hi]
-    rfl
-  rw [mapM_pyRange _ _ cp.length htvt]
-  simp only [ViewTieL.ok_bind]
-  have hfm : firstMin ((List.range cp.length).map (fun _ => IntInf.inf)) = (0, IntInf.inf) :=
-    firstMin_all_inf _ (by intro x hx; simp only [List.mem_map] at hx; obtain ⟨_, _, rfl⟩ := hx; rfl)
-  have hnz : (List.range cp.length).map (fun _ => IntInf.inf) ≠ [] := by
-    intro e; have := congrArg List.length e; simp only [List.length_map, List.length_range, List.length_nil] at this; omega
-  have hmin := pyMinInf_eq _ hnz
-  have hind := pyIndex_firstMin _ hnz
-  rw [hfm] at hmin hind
-  simp only at hmin hind
-  rw [hmin]
-  simp only [ViewTieL.ok_bind]
-  rw [hind]
-  simp only [ViewTieL.ok_bind]
-  rw [pyGet_range_map _ _ _ hpos, pyGet_getD cp 0 (0, []) hpos, pyGet_range_map _ _ _ hpos]
-  simp only [ViewTieL.ok_bind]
-  have hrow : (cp.getD 0 (0, [])).2 = rowAt cp 0 := rfl
-  have hnil : rowAt cp 0 = [] := List.length_eq_zero_iff.1 (hlen0 0 hpos)
-  rw [hrow, hnil]
-  rfl
-
+/-- (Before the repair 1462441 `has_next` started as `len(channel_pairings_list) > 0` and the code raised IndexError when there were
+    channels but no pairing; it now starts as `any(cur[i] < max[i] …)`, and the equality below holds for all inputs.) -/
 theorem gip_spec (h0 : Heap) (refs : List Nat) (types : List MType) (std : Int) (impute : Bool)
-    (hrefs : ∀ r ∈ refs, r < h0.length) (hok : ∀ m ∈ h0, m.ch ≠ pyNone)
-    (hdom : pairings types std impute (deref h0 refs) = [] ∨
-      0 < ((pairings types std impute (deref h0 refs)).map (fun c => c.2.length)).sum) :
+    (hrefs : ∀ r ∈ refs, r < h0.length) (hok : ∀ m ∈ h0, m.ch ≠ pyNone) :
     ∃ h' out, getInterleavedMessagePairings h0 refs (some types) std impute = .ok (h', sortRefs h0 refs, out) ∧ (∃ x, h' = h0 ++ x) ∧
       out.map (fun x => (x.1, deref h' x.2)) = interleaved types std impute (deref h0 refs) ∧
       (∀ m ∈ h', m.ch ≠ pyNone) ∧ (∀ x ∈ out, ∀ r ∈ x.2, r < h'.length) := by
@@ -694,6 +563,18 @@ theorem gip_spec (h0 : Heap) (refs : List Nat) (types : List MType) (std : Int) 
   rw [mapM_pyRange _ _ cp.length (hnxt (fun _ => 0))]
   rw [mapM_pyRange _ _ cp.length hids]
   try simp only [ViewTieL.ok_bind]
+  -- has_next = any(channel_cur_index[i] < channel_max_index[i] for i in range(len(channel_pairings_list)))
+  have hany0 : ∀ i, i < cp.length →
+      (do let a ← pyGet ((List.range cp.length).map (fun i => (((fun _ => 0) i : Nat) : Int))) (i : Int)
+          let b ← pyGet ((List.range cp.length).map (fun i => (((rowAt cp i).length : Nat) : Int))) (i : Int)
+          pure (decide (a < b)) : Except PyErr Bool) = .ok (decide ((fun _ => 0) i < (rowAt cp i).length)) := by
+    intro i hi
+    rw [pyGet_range_map _ _ _ hi, pyGet_range_map _ _ _ hi]
+    simp only [ViewTieL.ok_bind]
+    congr 1
+    simp
+  rw [anyM_pyRange _ _ cp.length hany0]
+  try simp only [ViewTieL.ok_bind]
   -- the loop
   have hfuel : (pySum ((List.range cp.length).map (fun i => (((rowAt cp i).length : Nat) : Int))) + 1).toNat
       = ((List.range cp.length).map (fun i => (rowAt cp i).length)).sum + 1 := by
@@ -728,27 +609,8 @@ theorem gip_spec (h0 : Heap) (refs : List Nat) (types : List MType) (std : Int) 
     ?hstep ?hzero (((List.range cp.length).map (fun i => (rowAt cp i).length)).sum) _ _ (Nat.lt_succ_self _) ?hinit
   case hinit =>
     refine ⟨fun _ => 0, rfl, rfl, ?_, fun _ _ => Nat.zero_le _, by simp, ?_, by simp⟩
-    · -- has_next = len(channel_pairings_list) > 0
-      simp only
-      rcases hdom with hd | hd
-      · have : cp.length = 0 := by
-          have := congrArg List.length hd
-          rw [← habs] at this
-          simpa [absP] using this
-        simp [this]
-      · rw [← habs] at hd
-        have hd' : 0 < ((List.range cp.length).map (fun i => (rowAt cp i).length - (fun _ => 0) i)).sum := by
-          simp only [Nat.sub_zero]
-          rw [htot]
-          have e : (absP h cp).map (fun c => c.2.length) = cp.map (fun c => c.2.length) := by
-            simp [absP, Function.comp]
-          rw [← e]; exact hd
-        obtain ⟨i, hi, hc⟩ := sum_sub_pos _ _ _ hd'
-        have h1 : decide (((cp.length : Nat) : Int) > 0) = true := by simp; omega
-        rw [h1]
-        symm
-        rw [List.any_eq_true]
-        exact ⟨i, by simpa using hi, by simpa using hc⟩
+    · -- has_next = any(channel_cur_index[i] < channel_max_index[i] …)
+      simp
     · simp only [List.map_nil, List.reverse_nil, interleaved, pairings] at *
       rw [hcp0, habs]
       congr 1
@@ -887,7 +749,7 @@ theorem gip_none (h0 : Heap) (refs : List Nat) (std : Int) (impute : Bool) :
   simp only []
   rw [gmp_none]
 
-/-! ### when are there channels without pairings?  (input-level form of the IndexError finding) -/
+/-! ### when are there channels without pairings?  (input-level form of the former IndexError finding, repaired in 1462441) -/
 
 /-- number of pairings in a table -/
 def sumLen (d : Assoc Int (List Pairing)) : Nat := (d.map (fun c => c.2.length)).sum
@@ -1012,7 +874,7 @@ theorem fold_counts (types : List MType) (imp : Bool) : ∀ (l : List Msg) (s : 
           · exact h' x hx
         · rintro ⟨h, h'⟩; exact ⟨h, fun x hx => h' x (by simp [hx])⟩
 
-/-- the messages that make `get_interleaved_message_pairings` / `equals` raise IndexError: some message has a listed type, and every
+/-- the messages that made `get_interleaved_message_pairings` / `equals` raise IndexError before the repair 1462441: some message has a listed type, and every
     message of a listed type is a note-off (which then closes nothing) -/
 def OnlyOrphanOffs (types : List MType) (a : List Msg) : Prop :=
   (∃ m ∈ a, types.contains m.ty = true) ∧ ∀ m ∈ a, types.contains m.ty = true → m.ty = .noteOff
